@@ -502,10 +502,10 @@ def main():
     quick = c.tier == "quick"
     n_hist = 320 if quick else 8000
     proc, out, log = run_repo_tests(c, TEST_MODULES[c.tier], scratch)
-    per = max(4, n_hist // (vlib.NPROC * 4))
+    per = 5 if quick else 40            # small jobs: a busy machine must not push one job over the timeout
     jobs = [{"kind": "histories", "start": s, "count": min(per, n_hist - s)} for s in range(0, n_hist, per)]
-    vlib.fanout("checks.C08", jobs, c, timeout=1500, nproc=max(1, vlib.NPROC - 1))
-    judge_repo_tests(c, proc, out, log, scratch, 900)
+    vlib.fanout("checks.C08", jobs, c, timeout=2400, nproc=max(1, vlib.NPROC - 1))
+    judge_repo_tests(c, proc, out, log, scratch, 1800)
     c.floor("histories", 300 if quick else 8000)
     c.floor("histories_mechanism_free", 240 if quick else 6400)
     c.floor("compared_queries", 10000 if quick else 250000)
